@@ -906,6 +906,9 @@ func c03inject(p *Program, r *Report) {
 		}
 		if d != "" {
 			r.Add(c03InjectRule, FnName(bd), "bech32 symbol decoding is injective: position in the searched 32-symbol charset", bd.Pos(), d == bip173Charset && distinctChars(d), "strings.IndexByte over distinct symbols; −1 rejects")
+			if foreignSymbolRejects(p, r, c03InjectRule, bd, "bech32") == 0 {
+				r.Unresolved(c03InjectRule, "test of the strings.IndexByte result on the bech32 decode path")
+			}
 		} else if !reverseTableRule(p, r, c03InjectRule, bd, bip173Charset, "bech32") {
 			r.Unresolved(c03InjectRule, "bech32 symbol decoding (searched charset or reverse table)")
 		}
